@@ -201,7 +201,9 @@ KSIM_SOURCES = ["engine/ksim.c", "engine/mcrt_ksim.c"]
 # thread / time functions the library may call without the scheduler having to know (no blocking, no synchronisation)
 PASS_THROUGH = {"pthread_attr_init", "pthread_attr_destroy", "pthread_attr_setdetachstate", "pthread_attr_getdetachstate", "pthread_attr_setinheritsched", "pthread_attr_getschedpolicy",
                 "pthread_attr_setschedpolicy", "pthread_attr_setschedparam", "pthread_attr_setstacksize", "pthread_self", "pthread_equal", "pthread_getschedparam", "pthread_setschedparam",
-                "sched_get_priority_min", "sched_get_priority_max", "clock_gettime", "gettimeofday", "time"}
+                "sched_get_priority_min", "sched_get_priority_max", "clock_gettime", "gettimeofday", "time",
+                "pthread_rwlockattr_init", "pthread_rwlockattr_destroy", "pthread_rwlockattr_setkind_np", "pthread_rwlockattr_getkind_np", "pthread_rwlockattr_setpshared", "pthread_rwlockattr_getpshared",
+                "pthread_mutexattr_init", "pthread_mutexattr_destroy", "pthread_condattr_init", "pthread_condattr_destroy"}
 BLOCKING_RE = re.compile(r"^(pthread_|sched_|nanosleep$|clock_nanosleep$|usleep$|sleep$|select$|pselect$|epoll_|sigwait|sigsuspend$|pause$|futex)")
 
 
